@@ -366,6 +366,36 @@ def _r3(ctx):
                   "rptr := copy of ab_ref_ -> InitRenorm(ab, A) -> lu_factorize(A) -> lu_substitute(A, pm, rptr) -> RenormAbundance(rptr, ab)", found=str(pos))
         ctx.check(bool(re.search(r"vector_type\s+rptr\s*\(\s*NELEMENTS\s*\)", body)) and bool(re.search(r"for\s*\(\s*int\s+i\s*=\s*0\s*;\s*i\s*<\s*NELEMENTS\s*;", body)),
                   "R3", "odeint:Renorm:copy", (OD_MAIN, 0), "the right-hand side is a local copy of all NELEMENTS reference ratios")
+    # no shortcut: a successful return always comes after the abundances were rescaled (an "already conserved" test with an
+    # absolute tolerance leaves trace elements off by factors)
+    for label, rel, cfg in (("cvode", CV_MAIN, {"general.method": "dense"}), ("odeint", OD_MAIN, {})):
+        sk = Skel(J.flatten(ctx.tree, rel, cfg))
+        fs = sk.func("Naunet::Renorm")
+        if fs:
+            body = sk.plain(fs[0].body)
+            ra = [m_.start() for m_ in re.finditer(r"\bRenormAbundance\s*\(", body)]
+            early = [m_.start() for m_ in re.finditer(r"\breturn\s+NAUNET_SUCCESS\b", body) if ra and m_.start() < ra[0]]
+            ctx.check(bool(ra) and not early, "R3", f"{label}:Renorm:no early success", (rel, 0),
+                      "success is returned only after RenormAbundance" if ra and not early else
+                      "Renorm can return NAUNET_SUCCESS before RenormAbundance was called: the abundances are left as they are although their element totals differ from the reference",
+                      expected="a single path: InitRenorm -> solve -> RenormAbundance -> return", found=f"{len(early)} success return(s) before the rescaling")
+    # one normalisation basis: the hydrogen nuclei are the element H of the same table, in GetHNuclei as in SetReferenceAbund(opt 0)
+    PHYS_ = "naunet/templates/base/cpp/src/naunet_physics.cpp.j2"
+    ctx.saw(PHYS_)
+    sk = Skel(J.flatten(ctx.tree, PHYS_, {}))
+    fs = sk.func("GetHNuclei")
+    if not fs:
+        ctx.missing("R3", "GetHNuclei", (PHYS_, 0), "GetHNuclei not found")
+    else:
+        raw = sk.plain(fs[0].body)
+        elems = set(re.findall(r"IDX_ELEM_\w+", raw))
+        body = re.sub(r"\s+", "", raw)
+        ok = "returnGetElementAbund(y,IDX_ELEM_H);" in body and elems == {"IDX_ELEM_H"} and body.count("GetElementAbund(") == 1
+        ctx.check(ok, "R3", "GetHNuclei = element H", (PHYS_, 0),
+                  "GetHNuclei(y) is GetElementAbund(y, IDX_ELEM_H): the basis InitRenorm divides by is the one SetReferenceAbund stores ratios against" if ok else
+                  f"GetHNuclei is not the abundance of element H alone (elements used: {sorted(elems)}): InitRenorm divides by it while SetReferenceAbund(ref, 0) stores ref[i]/ref[IDX_ELEM_H] -- "
+                  "the two bases differ and Renorm is no longer the identity on conserving abundances",
+                  expected="return GetElementAbund(y, IDX_ELEM_H);", found=body[:160])
     # SetReferenceAbund (both)
     for label, rel, cfg in (("cvode", CV_MAIN, {"general.method": "dense"}), ("odeint", OD_MAIN, {})):
         sk = Skel(J.flatten(ctx.tree, rel, cfg))
@@ -379,6 +409,8 @@ def _r3(ctx):
 
 
 MUTANTS = [
+    {"name": "hnuclei-counts-deuterons", "file": "naunet/templates/base/cpp/src/naunet_physics.cpp.j2", "old": "    return GetElementAbund(y, IDX_ELEM_H);\n#else", "new": "    double h = GetElementAbund(y, IDX_ELEM_H);\n#ifdef IDX_ELEM_D\n    h += GetElementAbund(y, IDX_ELEM_D);\n#endif\n    return h;\n#else", "rules": ["R3"]},
+    {"name": "odeint-renorm-early-return", "file": OD_MAIN, "old": "    vector_type rptr(NELEMENTS);\n    matrix_type A(NELEMENTS, NELEMENTS);", "new": "    if (fabs(GetElementAbund(ab, 0) / GetHNuclei(ab) - ab_ref_[0]) < 1e-8) {\n        return NAUNET_SUCCESS;\n    }\n    vector_type rptr(NELEMENTS);\n    matrix_type A(NELEMENTS, NELEMENTS);", "rules": ["R3"]},
     {"name": "elements-from-reacting-species", "file": "naunet/network.py", "old": "        return [spec for spec in self.species if spec.is_atom]", "new": "        return sorted(s for s in self._reactants | self._products if s.is_atom)", "rules": ["R5"]},
     {"name": "elements-neutral-only", "file": "naunet/network.py", "old": "        return [spec for spec in self.species if spec.is_atom]", "new": "        return [spec for spec in self.species if spec.is_atom and not spec.is_grain]", "rules": ["R5"]},
     {"name": "A-of-row-element", "file": FILE, "old": "f\"{(ci * cj * elements[jele].A)} * ab[IDX_{spec.alias}]", "new": "f\"{(ci * cj * elements[iele].A)} * ab[IDX_{spec.alias}]", "rules": ["R1"]},
